@@ -61,11 +61,24 @@ def bd_task():
     return Task(f"{PROP}.Bd.site", PROP, "site", run)
 
 
+def _cont():
+    from contracts import readerblocks
+    from bounded import c02
+    c = readerblocks.continuation(PROP)
+    c.search_fn = lambda: c02.search(0)
+    return c
+
+
+_cont.__name__ = "continuation_block"
+
+
 def build(tier, seed):
     set_tier(tier)
     tasks = [Task(f"{PROP}.S.lower", PROP, "FortranContainer.__init__", lambda: __import__("contracts.plumbing", fromlist=["x"]).lower_after_masking(PROP, lambda: __import__("bounded.c18", fromlist=["x"]).decl_search())),
              a_task(PROP, _ft), a_task(PROP, _fd), Task(f"{PROP}.S.templates", PROP, "templates", lambda: declarations.template_escapes(PROP) + declarations.literal_reinsertion_is_last(PROP)),
              Task(f"{PROP}.S.values", PROP, "name = value pairs", lambda: __import__("contracts.operands", fromlist=["x"]).value_obligations(PROP, replay=lambda: __import__("bounded.c18", fromlist=["x"]).decl_search())),
+             Task(f"{PROP}.S.default_not_shared", PROP, "mutable default arguments", lambda: __import__("contracts.plumbing", fromlist=["x"]).mutable_defaults_not_shared(PROP, ("ford.sourceform",), lambda: __import__("bounded.c01", fromlist=["x"]).implicit_attributes())),
+             a_task(PROP, _cont),
              Task(f"{PROP}.B.decl_patterns", PROP, "KIND_RE / LEN_RE / DOUBLE_*_RE", lambda: declarations.rx_obligations(PROP)), bd_task()]
     meta = {
         "trusted_base": TRUSTED_BASE + ["jinja2's own parser", "Python's html.parser as the reader of the written pages (bounded stand-in only)"],
